@@ -99,7 +99,10 @@ def _plan(prop, q, n):
         return [storm(NORMAL, 30000 if q else 300000, n, 0, 24 if q else 40),
                 storm(NORMAL, 12500 if q else 125000, n, 1, 24 if q else 40)]
     if prop == "C02":
-        return [storm(ALL, 25000 if q else 250000, n, 1, 24 if q else 40)]
+        st = [storm(ALL, 25000 if q else 250000, n, 1, 24 if q else 40)]
+        if not q:  # header asserts as extra oracles (non-NDEBUG build)
+            st.append(storm(NORMAL, 20000, n, 1, 32, "dbg20"))
+        return st
     if prop == "C03":
         return [storm(instrumented(ALL), 30000 if q else 300000, n, 1, 24 if q else 40)]
     if prop == "C04":
@@ -123,6 +126,8 @@ def _plan(prop, q, n):
     if prop == "C12":
         st = [storm(SIZE, 60000 if q else 600000, n, 0, 20 if q else 32),
               storm(SIZE, 30000 if q else 300000, n, 1, 20 if q else 32)]
+        if not q:
+            st.append(storm(SIZE, 30000, n, 1, 32, "dbg20"))
         return st
     if prop == "C13":
         return [storm(TWIN, 100000 if q else 1000000, n, 0, 24 if q else 40)]
@@ -218,7 +223,7 @@ def run_check(prop, tier, seed):
         fl = st["flavour"]
         if fl not in binaries:
             try:
-                binaries[fl] = B.build(fl, ALL if fl in ("asan20",) else st["universes"])
+                binaries[fl] = B.build(fl, ALL if fl in ("asan20", "dbg20") else st["universes"])
             except B.BuildError as e:
                 print("[check %s] build failed: %s" % (prop, e))
                 print(e.output[-3000:])
@@ -310,7 +315,7 @@ def replay_file(prop, path):
     except B.BuildError as e:
         print("build failed:", e)
         return 2
-    o, at, kind, th, v = D.observe(binary, d["universe"], d["world"], d["ops"], fl)
+    o, at, kind, th, v = D.observe(binary, d["universe"], d["world"], d["ops"], fl, want=d["expect"])
     if o is None:
         print("[replay] no violation: the tree no longer violates %s on this history" % prop)
         return 0
